@@ -42,6 +42,12 @@ def _run(job):
     else:
         wb = job["wb"]
         src = job["src"]
+    if kind == "trans" and not job["case"]["other"]:
+        # what an earlier conversion in the same process saw must not matter: the twin workbook (same headers, with or_other) is converted first
+        from harness import render
+
+        inp, kw = render.render(warngen.build_trans({**job["case"], "other": True}), fmt)
+        conv.convert_case({"input": inp, "kwargs": kw, "events": False})
     res, same = _conv_both(wb, fmt)
     warn, missing, similar, bad = warngen.classify(res.get("warnings") or [])
     obs = {"warn": warn, "missing": missing, "same_xform": same, "similar": False, "names_it": False, "bad": bad}
